@@ -252,25 +252,22 @@ Inductive castle_kind (p:pos) (c:color) (m:move) : Prop :=
     occ p (home_rank c*8+3) = false ->
     m = mv (home_rank c*8+4) (home_rank c*8+2) -> castle_kind p c m.
 
+Lemma in_if_nil {A} (b:bool) (l:list A) x : In x (if b then l else []) -> b = true /\ In x l.
+Proof. destruct b; [auto|intros []]. Qed.
 Lemma castle_moves_kind p c m : In m (castle_moves p c) -> castle_kind p c m.
 Proof.
-  unfold castle_moves.
-  destruct (has p (home_rank c * 8 + 4) King c) eqn:Hk; cbn [andb]; [|intros []].
-  destruct (negb (attacked_by p (opp c) (home_rank c * 8 + 4))); [|intros []].
-  intro H. apply in_app_or in H as [H|H].
-  - destruct (can_k p c) eqn:E1; cbn [andb] in H; [|destruct H].
-    destruct (has p (home_rank c * 8 + 7) Rook c) eqn:E2; cbn [andb] in H; [|destruct H].
-    destruct (occ p (home_rank c * 8 + 5)) eqn:E3; cbn [andb negb] in H; [destruct H|].
-    destruct (occ p (home_rank c * 8 + 6)) eqn:E4; cbn [andb negb] in H; [destruct H|].
-    match type of H with In _ (if ?b then _ else _) => destruct b end; [|destruct H].
-    destruct H as [<-|[]]. apply CK_king; auto.
-  - destruct (can_q p c) eqn:E1; cbn [andb] in H; [|destruct H].
-    destruct (has p (home_rank c * 8) Rook c) eqn:E2; cbn [andb] in H; [|destruct H].
-    destruct (occ p (home_rank c * 8 + 1)) eqn:E3; cbn [andb negb] in H; [destruct H|].
-    destruct (occ p (home_rank c * 8 + 2)) eqn:E4; cbn [andb negb] in H; [destruct H|].
-    destruct (occ p (home_rank c * 8 + 3)) eqn:E5; cbn [andb negb] in H; [destruct H|].
-    match type of H with In _ (if ?b then _ else _) => destruct b end; [|destruct H].
-    destruct H as [<-|[]]. apply CK_queen; auto.
+  unfold castle_moves. intro H.
+  apply in_if_nil in H as [Hc H]. apply andb_prop in Hc as [Hk _].
+  apply in_app_or in H as [H|H]; apply in_if_nil in H as [Hc H]; destruct H as [<-|[]].
+  - apply andb_prop in Hc as [Hc _]. apply andb_prop in Hc as [Hc _].
+    apply andb_prop in Hc as [Hc E4]. apply andb_prop in Hc as [Hc E3].
+    apply andb_prop in Hc as [E1 E2]. apply negb_true_iff in E3, E4.
+    apply CK_king; auto.
+  - apply andb_prop in Hc as [Hc _]. apply andb_prop in Hc as [Hc _].
+    apply andb_prop in Hc as [Hc E5]. apply andb_prop in Hc as [Hc E4].
+    apply andb_prop in Hc as [Hc E3]. apply andb_prop in Hc as [E1 E2].
+    apply negb_true_iff in E3, E4, E5.
+    apply CK_queen; auto.
 Qed.
 
 (** a man that moves like its attack pattern, not onto a man of its own side *)
@@ -361,7 +358,7 @@ Qed.
 
 Lemma legal_dom p m : In m (legal_moves p) -> src m < 64 /\ dst m < 64 /\ dst m <> src m.
 Proof.
-  intro H. apply legal_kind in H as [Hs Hk]. split; [exact Hs|]. apply move_kind_dst; assumption.
+  intro H. apply legal_kind in H as [Hs Hk]. split; [exact Hs|]. exact (move_kind_dst p m Hs Hk).
 Qed.
 
 (** ** castling, en passant and double pushes among the legal moves *)
